@@ -185,23 +185,46 @@ func (s *strct) maybeInjectStartToken(token *lexer.Token, v reflect.Value) {
 	if s.posFieldIndex == nil {
 		return
 	}
-	f := v.FieldByIndex(s.posFieldIndex)
-	f.Set(reflect.ValueOf(token.Pos).Convert(f.Type()))
+	if f := injectedField(v, s.posFieldIndex); f.IsValid() {
+		f.Set(reflect.ValueOf(token.Pos).Convert(f.Type()))
+	}
 }
 
 func (s *strct) maybeInjectEndToken(token *lexer.Token, v reflect.Value) {
 	if s.endPosFieldIndex == nil {
 		return
 	}
-	f := v.FieldByIndex(s.endPosFieldIndex)
-	f.Set(reflect.ValueOf(token.Pos).Convert(f.Type()))
+	if f := injectedField(v, s.endPosFieldIndex); f.IsValid() {
+		f.Set(reflect.ValueOf(token.Pos).Convert(f.Type()))
+	}
 }
 
 func (s *strct) maybeInjectTokens(tokens []lexer.Token, v reflect.Value) {
 	if s.tokensFieldIndex == nil {
 		return
 	}
-	v.FieldByIndex(s.tokensFieldIndex).Set(reflect.ValueOf(tokens))
+	if f := injectedField(v, s.tokensFieldIndex); f.IsValid() {
+		f.Set(reflect.ValueOf(tokens))
+	}
+}
+
+// injectedField is like v.FieldByIndex(index), but allocates nil embedded pointers on the way instead of panicking.
+//
+// It returns the zero Value if an embedded pointer is nil and can not be set (an unexported embedded type).
+func injectedField(v reflect.Value, index []int) reflect.Value {
+	for i, x := range index {
+		if i > 0 && v.Kind() == reflect.Ptr {
+			if v.IsNil() {
+				if !v.CanSet() {
+					return reflect.Value{}
+				}
+				v.Set(reflect.New(v.Type().Elem()))
+			}
+			v = v.Elem()
+		}
+		v = v.Field(x)
+	}
+	return v
 }
 
 type groupMatchMode int
